@@ -107,6 +107,10 @@ def u_update(I, sizes):
         I.exec(stmt, env)
         out = Outcome('return', None)
     except PyExc as e:
+        if e.obj.cls.name in ('NameError', 'UnboundLocalError'):
+            # the statement now reads a variable bound elsewhere in GenerateRxnNet: the extraction (statement + three lists) no longer
+            # covers what it depends on -- undecided here, the closure stand-in is the check that still applies
+            raise Unsupported('extracted work-list statement reads a variable defined outside it (%s)' % e.obj.fields.get('args', ''))
         out = Outcome('raise', e.obj)
 
     def posts(_):
